@@ -11,7 +11,7 @@ from __future__ import annotations
 
 import json
 from dataclasses import dataclass, field
-from typing import Any, Dict, List, Optional
+from typing import Any, Dict, List, Optional, Set
 
 from . import core
 from .core import Report
@@ -55,6 +55,7 @@ class Unit(Symbol):
     box: Box
     part: Part
     parts: List[Part] = field(default_factory=list)
+    opt: Optional[Part] = None                     # may be None (worlds of the None stream only)
 
     def __hash__(self):
         return hash((self.knob, self.box))
@@ -69,6 +70,7 @@ class Rack(Symbol):
     part: Part
     units: List[Unit] = field(default_factory=list)
     parts: List[Part] = field(default_factory=list)
+    pset: Set[Part] = field(default_factory=set)   # a Set-typed collection attribute (pairwise unequal members)
 
     def __hash__(self):
         return hash(self.box)
@@ -91,8 +93,8 @@ CLASSES = {"int": int, "str": str, "Part": Part, "Knob": Knob, "Box": Box, "BigB
            "Rack": Rack, "WideRack": WideRack}
 CID = {n: i + 1 for i, n in enumerate(CLASSES)}          # 0 = no class
 OBJ_CLASSES = ["Part", "Knob", "Box", "BigBox", "Unit", "Rack", "WideRack"]
-ATTR = {"name": 0, "size": 1, "knob": 2, "box": 3, "part": 4, "parts": 5, "units": 6, "tag": 7}
-FIELDS = {"Part": ["name", "size", "tag"], "Unit": ["knob", "box", "part", "parts"], "Rack": ["box", "part", "units", "parts"]}
+ATTR = {"name": 0, "size": 1, "knob": 2, "box": 3, "part": 4, "parts": 5, "units": 6, "tag": 7, "opt": 8, "pset": 9}
+FIELDS = {"Part": ["name", "size", "tag"], "Unit": ["knob", "box", "part", "parts", "opt"], "Rack": ["box", "part", "units", "parts", "pset"]}
 BASE = {"Knob": "Part", "Box": "Part", "BigBox": "Part", "WideRack": "Rack"}       # where the fields are declared
 STR0 = 1000
 STRS = ["n0", "n1", "n2"]
@@ -133,7 +135,7 @@ def field_table() -> Dict[tuple, tuple]:
 
 
 # ------------------------------------------------------------------ worlds
-def gen_world(rng: core.Rng) -> List[dict]:
+def gen_world(rng: core.Rng, nones: bool = False) -> List[dict]:
     objs: List[dict] = []
     knobs, boxes = [], []
     for _ in range(rng.randint(2, 3)):
@@ -151,7 +153,8 @@ def gen_world(rng: core.Rng) -> List[dict]:
     for _ in range(rng.randint(2, 4)):
         units.append(len(objs))
         objs.append({"cls": "Unit", "knob": rng.choice(knobs), "box": rng.choice(boxes), "part": rng.choice(parts),
-                     "parts": rng.sample(parts, rng.randint(0, 3))})
+                     "parts": rng.sample(parts, rng.randint(0, 3)),
+                     "opt": None if (nones and rng.chance(0.5)) else rng.choice(parts)})
     if rng.chance(0.4):
         units.append(len(objs))
         # a twin of a unit under ==; half of the time it holds other parts (Unit.__eq__ ignores them)
@@ -160,12 +163,18 @@ def gen_world(rng: core.Rng) -> List[dict]:
     racks = []
     for _ in range(rng.randint(3, 5)):
         racks.append(len(objs))
+        pset, seen = [], set()
+        for i in rng.sample(parts, rng.randint(0, 3)):         # members of a set: pairwise unequal under ==
+            k = (objs[i]["cls"], objs[i]["name"], objs[i]["size"])
+            if k not in seen:
+                seen.add(k)
+                pset.append(i)
         objs.append({"cls": rng.choice(["Rack", "Rack", "WideRack"]), "box": rng.choice(boxes), "part": rng.choice(parts),
-                     "units": rng.sample(units, rng.randint(0, 3)), "parts": rng.sample(parts, rng.randint(0, 2))})
+                     "units": rng.sample(units, rng.randint(0, 3)), "parts": rng.sample(parts, rng.randint(0, 2)), "pset": pset})
     if rng.chance(0.5):
         r0 = objs[racks[0]]
         racks.append(len(objs))
-        objs.append(dict(r0, units=list(r0["units"]), parts=list(r0["parts"])))      # value-equal twin of a rack
+        objs.append(dict(r0, units=list(r0["units"]), parts=list(r0["parts"]), pset=list(r0["pset"])))   # value-equal twin of a rack
     return objs
 
 
@@ -176,9 +185,12 @@ def build_world(objs: List[dict]) -> List[Any]:
         if issubclass(c, Part):
             built.append(c(o["name"], o["size"], o.get("tag", 1)))
         elif c is Unit:
-            built.append(Unit(built[o["knob"]], built[o["box"]], built[o["part"]], [built[i] for i in o["parts"]]))
+            opt = o.get("opt", o["part"])
+            built.append(Unit(built[o["knob"]], built[o["box"]], built[o["part"]], [built[i] for i in o["parts"]],
+                              None if opt is None else built[opt]))
         else:
-            built.append(c(built[o["box"]], built[o["part"]], [built[i] for i in o["units"]], [built[i] for i in o["parts"]]))
+            built.append(c(built[o["box"]], built[o["part"]], [built[i] for i in o["units"]], [built[i] for i in o["parts"]],
+                           {built[i] for i in o.get("pset", [])}))
     return built
 
 
@@ -345,11 +357,13 @@ def case_term(d: dict, keys: List[int]) -> str:
     for i, o in enumerate(objs):
         attrs = []
         for a in fields_of(o["cls"]):
-            v = o.get(a, 1) if a == "tag" else o[a]
+            v = o.get(a, 1) if a == "tag" else (o.get("opt", o["part"]) if a == "opt" else (o.get("pset", []) if a == "pset" else o[a]))
             if a == "name":
                 t = f"VI {STR0 + STRS.index(v)}"
             elif a in ("size", "tag"):
                 t = f"VI {v}"
+            elif v is None:
+                t = "VO 0"                                   # None
             elif isinstance(v, list):
                 t = f"VLO {core.zlist(j + 1 for j in v)}"
             else:
@@ -378,13 +392,15 @@ def py_value(v, built):
     return [built[i] for i in x]
 
 
-def build_kwargs(al, built, live=None):
+def build_kwargs(al, built, live=None, setlit=None):
     """live: None, or a list collecting (list object, final contents): every value list is then handed over with OTHER
     contents (empty, or the final ones reversed without the first) and set to the final contents only after the query is built"""
     from krrood.entity_query_language.match import match, match_any, match_all, select, select_any, select_all
 
     def value(v):
         x = py_value(v, built)
+        if setlit and v[0] == "lo":
+            return {"set": set, "frozenset": frozenset, "tuple": tuple}[setlit](x)
         if live is not None and isinstance(x, list):
             init = [] if len(live) % 2 == 0 else list(reversed(x))[1:]
             live.append((init, x))
@@ -408,7 +424,7 @@ def build_kwargs(al, built, live=None):
         else:
             ctor = {"any": match_any, "match": match, "select": select, "select_any": select_any}[ap[3]]
             t = CLASSES[ap[1]] if ap[1] else None
-            kw[a] = (ctor(t) if t is not None else ctor())(**build_kwargs(ap[2], built, live))
+            kw[a] = (ctor(t) if t is not None else ctor())(**build_kwargs(ap[2], built, live, setlit))
     return kw
 
 
@@ -422,21 +438,23 @@ def run_impl(d: dict):
     keys = eq_keys(built)
     index = {id(x): i for i, x in enumerate(built)}
     def canon(v):
-        if isinstance(v, bool) or v is None:
+        if v is None:
+            return [1, 0]
+        if isinstance(v, bool):
             return [9, 0]
         if isinstance(v, int):
             return [0, v]
         if isinstance(v, str):
             return [0, STR0 + STRS.index(v)]
-        if isinstance(v, list):
-            return [3, [index.get(id(x), -1) + 1 for x in v]]
+        if isinstance(v, (list, set, frozenset, tuple)):
+            return [3, sorted(index.get(id(x), -1) + 1 for x in v)]
         return [1, index.get(id(v), -1) + 1]
     try:
         from krrood.entity_query_language.match import entity_selection
         from krrood.entity_query_language.symbolic import UnificationDict
         ctor = entity_selection if d.get("rootsel") else entity_matching
         live = [] if d.get("live") else None
-        q = an(ctor(CLASSES[d["T"]], [built[i] for i in d["dom"]])(**build_kwargs(d["pat"], built, live)))
+        q = an(ctor(CLASSES[d["T"]], [built[i] for i in d["dom"]])(**build_kwargs(d["pat"], built, live, d.get("setlit"))))
         if d.get("live") == 2:
             list(q.evaluate())                   # a first evaluation over the initial contents
         for lst, final in (live or []):
@@ -462,7 +480,7 @@ def run_impl(d: dict):
 def py_spec(d: dict, built) -> List[int]:
     """the direct Python predicate (fourth opinion): the reading of DESIGN section 6 written over the live objects"""
     def elems(v):
-        return list(v) if isinstance(v, list) else [v]
+        return list(v) if isinstance(v, (list, set)) else [v]
 
     def mem(x, l):
         return any(x == y for y in l)
@@ -470,7 +488,7 @@ def py_spec(d: dict, built) -> List[int]:
     def ok_attr(ap, v):
         if ap[0] == "lit":
             lit = ap[1]
-            return any(mem(x, elems(lit)) for x in v) if isinstance(v, list) else v == lit
+            return any(mem(x, elems(lit)) for x in v) if isinstance(v, (list, set)) else v == lit
         if ap[0] in ("any", "sel_any"):
             return any(mem(x, elems(ap[1])) for x in elems(v))
         if ap[0] in ("all", "sel_all"):
@@ -478,7 +496,7 @@ def py_spec(d: dict, built) -> List[int]:
         if ap[0] == "var":      # a let-variable as value: the attribute equals / has a member equal to SOME value of its domain
             return any(mem(x, ap[2]) for x in elems(v))
         one = lambda o: (ap[1] is None or isinstance(o, CLASSES[ap[1]])) and ok_alist(ap[2], o)
-        return any(one(o) for o in v) if isinstance(v, list) else one(v)
+        return any(one(o) for o in v) if isinstance(v, (list, set)) else one(v)
 
     def ok_alist(al, o):
         return all(ok_attr(conv(ap), getattr(o, a)) for a, ap in al)
@@ -536,6 +554,8 @@ def classify(d: dict) -> Dict[str, int]:
                     hit("U_all_scalar")
             else:
                 T = ap[1]
+                if a == "opt" and not tfilter(T, end) and any(o.get("opt", 0) is None for o in d["objs"] if o["cls"] == "Unit"):
+                    hit("K_nonevalue")      # only without a type filter: with one, HasType comes first and None just does not match
                 if T and not issub(T, end) and not issub(end, T):
                     hit("K_unrelated")
                 if it and not tfilter(T, end):
@@ -577,7 +597,9 @@ def gen_cases(tier: str, seed: int) -> List[dict]:
         if r.chance(0.3):
             dom = dom[: max(1, len(dom) - 3)]
         case = {"objs": objs, "T": T, "pat": pat, "dom": dom, "rootsel": bool(sel and r.chance(0.4))}
-        if not wild and r.chance(0.25):
+        if r.chance(0.2):
+            case["setlit"] = r.choice(["set", "frozenset", "tuple"])      # object value lists handed over as set / frozenset / tuple
+        elif not wild and r.chance(0.25):
             case["live"] = r.choice([1, 1, 2])   # value lists filled / changed after the pattern is built (2: between two evaluations)
         out.append(case)
     return out
@@ -683,8 +705,35 @@ def gen_letvalue_cases(tier: str, seed: int) -> List[dict]:
     return out
 
 
+def gen_none_cases(tier: str, seed: int) -> List[dict]:
+    """worlds in which the Optional attribute Unit.opt is None for about half of the units; keywords on it: nested matches of
+    narrower type (a HasType filter comes first), of the declared type (finding C11-g: AttributeError), literals, match_any"""
+    rng = core.Rng(seed).fork(1113)
+    out = []
+    for i in range(150 if tier == "quick" else 800):
+        r = rng.fork(i)
+        objs = gen_world(r, nones=True)
+        rr = r.random()
+        if rr < 0.6:
+            T2 = r.choice(["Knob", "Box", "BigBox", "Knob", "Box", "Part"])
+            inner = [[r.choice(["name", "size", "tag"]), None]]
+            inner[0][1] = ["lit", gen_value(r, objs, "str" if inner[0][0] == "name" else "int")]
+            kw = ["opt", ["match", T2, inner, r.choice(["match", "match", "select"])]]
+        elif rr < 0.8:
+            kw = ["opt", ["lit", gen_value(r, objs, "Part")]]
+        else:
+            kw = ["opt", ["any", gen_list(r, objs, "Part", 1, 3)]]
+        other = [k for k in gen_alist(r, objs, "Unit", 1, False) if k[0] != "opt"][:1]
+        inner_pat = r.choice([[kw], [kw] + other, other + [kw]])
+        if r.chance(0.5):
+            out.append({"objs": objs, "T": "Unit", "pat": inner_pat, "dom": list(range(len(objs)))})
+        else:
+            out.append({"objs": objs, "T": "Rack", "pat": [["units", ["match", "Unit", inner_pat, "match"]]], "dom": list(range(len(objs)))})
+    return out
+
+
 TYPEERROR = [-1, sum(map(ord, "TypeError"))]
-KF_CLASSES = ("K_emptynested", "K_letvalue")   # K_emptylist (C11-b), K_existsfirst (C11-c), K_unrelated (C11-d) are repaired: counted, never tolerated
+KF_CLASSES = ("K_emptynested", "K_letvalue", "K_nonevalue")   # K_emptylist (C11-b), K_existsfirst (C11-c), K_unrelated (C11-d) are repaired: counted, never tolerated
 UNSPEC = ("U_in", "U_all_scalar")
 
 
@@ -732,6 +781,7 @@ def run(tier: str, seed: int, replay=None) -> int:
         descrs = [c["case"] for _, c in corpus] + gen_cases(tier, seed) + gen_directed(tier, seed)
     if not replay:
         descrs += gen_letvalue_cases(tier, seed)        # keywords whose value is a let-variable (finding C11-f)
+        descrs += gen_none_cases(tier, seed)            # None-valued Optional attributes (finding C11-g)
     ncorpus = len(corpus)
 
     impls, terms, builts = [], [], []
@@ -759,7 +809,7 @@ def run(tier: str, seed: int, replay=None) -> int:
     def rowset(x):
         if x is None or (len(x) == 2 and x[0] == -1):
             return x
-        return sorted({json.dumps(r) for r in x})
+        return sorted({json.dumps([[t, sorted(v)] if t == 3 else [t, v] for t, v in r]) for r in x})
 
     rows_bad = []
     for i, (d, impl, pys, (model, spec, inf, ncond, lax, inflax, mrows, srows)) in enumerate(zip(descrs, impls, builts, vals)):
